@@ -107,8 +107,8 @@ FUNCS = ['sin', 'cos', 'tan', 'asin', 'acos', 'atan', 'exp', 'log', 'sqrt', 'abs
 
 
 class Gen:
-    def __init__(self, rng, keys, pkey=0.6, reuse=0.3, pstruct=0.2):
-        self.rng, self.keys, self.pkey, self.reuse, self.pstruct = rng, keys, pkey, reuse, pstruct
+    def __init__(self, rng, keys, pkey=0.6, reuse=0.3, pstruct=0.2, pcls=0.3):
+        self.rng, self.keys, self.pkey, self.reuse, self.pstruct, self.pcls = rng, keys, pkey, reuse, pstruct, pcls
         self.nleaf = 0
         self.nid = 0
         self.pool = {}
@@ -175,6 +175,13 @@ class Gen:
         return [float(x) for x in m.reshape(-1)]
 
     def fresh_leaf(self, t, shape, structured=None):
+        node = self._fresh_leaf(t, shape, structured)
+        if len(O.ALTCLS.get(t, [])) > 1 and self.rng.random() < self.pcls:
+            node['cls'] = self.rng.choice(O.ALTCLS[t])
+            node['dcls'] = self.rng.choice(O.ALTCLS[t])
+        return node
+
+    def _fresh_leaf(self, t, shape, structured=None):
         rng = self.rng
         if structured is None:
             structured = rng.random() < self.pstruct
@@ -420,7 +427,7 @@ def mk_case(tree, keys, mode='fd', kind=None):
     return case
 
 
-ROOT_SHAPES = [(), (), (), (2,), (3,), (2, 3), (2, 1), (1,)]
+ROOT_SHAPES = [(), (), (), (2,), (3,), (2, 3), (2, 1), (1,), (1, 3), (1, 2)]
 ROOT_TYPES = ['S', 'S', 'S', 'V3', 'V3', 'V2', 'M2', 'M3', 'R3', 'Q']
 
 
@@ -591,6 +598,106 @@ def gen_cases(rng, tier):
                     if smooth(tree, keys)[0]:
                         cases.append(mk_case(tree, keys, kind='reuse:%s:%s' % (form, f)))
                         break
+    # 2f. operands whose shapes differ only by unit leading axes (same size, different rank) and general broadcasting
+    #     pairs, all key subsets, followed by a step that uses the leading axes of the result AND of its derivatives
+    #     (indexing, slicing, reduction, reshaping); the oracle also demands derivative shape == parent shape
+    BPAIRS = [((1, 3), (3,)), ((1,), ()), ((1, 1, 2), (2,)), ((1, 2), (2,)), ((1, 1), ()), ((1, 1, 3), (1, 3)), ((2, 3), (3,)),
+              ((2, 1), (3,)), ((1, 3), (2, 1))]
+    BOPS = [('add', ('S', 'S')), ('sub', ('S', 'S')), ('smul', ('S', 'S')), ('sdiv', ('S', 'S')), ('atan2', ('S', 'S')),
+            ('add', ('V3', 'V3')), ('smul', ('V3', 'S')), ('dot', ('V3', 'V3')), ('cross', ('V3', 'V3')), ('emul', ('V2', 'V2')),
+            ('matvec', ('M3', 'V3')), ('qmul', ('Q', 'Q')), ('from_scalars2', ('S', 'S')), ('outer', ('V2', 'V2'))]
+    for (name, ats) in BOPS:
+        rt = [r for (a, r) in OPS[name]['sigs'] if a == ats][0]
+        for (s1, s2) in (BPAIRS if thorough else BPAIRS[:6]):
+            for swap in (False, True):
+                for sub in (1, 2, 3):
+                    for _try in range(30):
+                        keys = rng.choice([{'t': []}, {'p': [2]}, {'t': [], 'q': [3]}])
+                        g = Gen(rng, keys, 1.0, reuse=0, pstruct=0.0, pcls=0.0)
+                        shapes = (s2, s1) if swap else (s1, s2)
+                        kids = [g.fresh_leaf(at, sh) for at, sh in zip(ats, shapes)]
+                        for i, kid in enumerate(kids):
+                            if not (sub >> i) & 1:
+                                kid['derivs'] = {}
+                        tree = {'op': name, 't': rt, 'p': rparams(name, ats, rng), 'args': kids}
+                        out = tuple(np.broadcast_shapes(s1, s2))
+                        step = rng.choice(['getitem0', 'slice', 'sum0', 'sumneg', 'mean0', 'reshape', 'flatten', 'swap', 'none'])
+                        if step == 'getitem0':
+                            tree = {'op': 'getitem', 't': rt, 'p': {'index': [rng.choice([0, -1])]}, 'args': [tree]}
+                        elif step == 'slice' and len(out) >= 2 and out[1] >= 2:
+                            tree = {'op': 'getitem', 't': rt, 'p': {'index': [0, [1, None, None]]}, 'args': [tree]}
+                        elif step in ('sum0', 'mean0'):
+                            tree = {'op': step[:-1], 't': rt, 'p': {'axis': rng.choice([0, -len(out), [0], [-len(out)]]), 'axform': 'tuple'}, 'args': [tree]}
+                        elif step == 'sumneg':
+                            tree = {'op': 'sum', 't': rt, 'p': {'axis': rng.choice([-1, len(out) - 1, None])}, 'args': [tree]}
+                        elif step == 'reshape':
+                            tree = {'op': 'reshape', 't': rt, 'p': {'shape': [int(np.prod(out, dtype=int))]}, 'args': [tree]}
+                        elif step == 'flatten' and len(out) >= 2:
+                            tree = {'op': 'flatten', 't': rt, 'p': {}, 'args': [tree]}
+                        elif step == 'swap' and len(out) >= 2:
+                            tree = {'op': 'swap_axes', 't': rt, 'p': {'a1': 0, 'a2': -1}, 'args': [tree]}
+                        if smooth(tree, keys)[0]:
+                            cases.append(mk_case(tree, keys, kind='bcast:' + name))
+                            break
+    # 2g. mixed-class operand pairs (subclass vs base class: Vector3/Vector, Pair/Vector, Matrix3/Matrix) whose derivatives are of
+    #     either class, through the binary vector operations and stack
+    MIX = [(n, ats) for n in ('add', 'sub', 'dot', 'cross', 'emul', 'ediv', 'perp', 'proj', 'sep', 'outer', 'ucross')
+           for (ats, _) in OPS[n]['sigs'] if len(ats) == 2 and ats[0] in ('V2', 'V3') and ats[1] == ats[0]]
+    for (name, ats) in MIX:
+        rt = [r for (a, r) in OPS[name]['sigs'] if a == ats][0]
+        alts = O.ALTCLS[ats[0]]
+        for c0 in alts:
+            for c1 in alts:
+                for (d0, d1) in ([(a, b) for a in alts for b in alts] if thorough else [(alts[1], alts[1]), (alts[0], alts[1]), (alts[1], alts[0])]):
+                    if c0 == c1 == d0 == d1:
+                        continue
+                    for sub in ((1, 2, 3) if thorough else (3, rng.choice([1, 2]))):
+                        for _try in range(30):
+                            keys = rng.choice([{'t': []}, {'p': [2]}])
+                            g = Gen(rng, keys, 1.0, reuse=0, pstruct=0.1, pcls=0.0)
+                            shape = rng.choice([(), (2,)])
+                            kids = [g.fresh_leaf(ats[0], shape), g.fresh_leaf(ats[1], shape)]
+                            for kid, c, d in zip(kids, (c0, c1), (d0, d1)):
+                                kid['cls'] = c; kid['dcls'] = d
+                            for i, kid in enumerate(kids):
+                                if not (sub >> i) & 1:
+                                    kid['derivs'] = {}
+                            tree = {'op': name, 't': rt, 'p': rparams(name, ats, rng), 'args': kids}
+                            if smooth(tree, keys)[0]:
+                                cases.append(mk_case(tree, keys, kind='mixcls:' + name))
+                                break
+    # stack of a Matrix3 (from a rotation constructor / to_matrix3 / twovec) with a plain Matrix, both orders, and of
+    # Vector3 with Vector, Pair with Vector
+    for rep in range(8 if thorough else 3):
+        for mk3 in ('rot', 'to_matrix3', 'twovec'):
+            for order in (0, 1):
+                for _try in range(30):
+                    keys = rng.choice([{'t': []}, {'p': [2]}, {'t': [], 'q': [3]}])
+                    g = Gen(rng, keys, 0.8, reuse=0, pcls=0.0)
+                    shape = rng.choice([(), (2,)])
+                    ats = OPS[mk3]['sigs'][0][0]
+                    r3 = {'op': mk3, 't': 'R3', 'p': rparams(mk3, ats, rng), 'args': [g.fresh_leaf(a, shape) for a in ats]}
+                    m3 = g.fresh_leaf('M3', shape)
+                    kids = [r3, m3] if order == 0 else [m3, r3]
+                    tree = {'op': 'stack', 't': 'M3', 'p': {}, 'args': kids}
+                    if rng.random() < 0.5:
+                        tree = {'op': 'getitem', 't': 'M3', 'p': {'index': [rng.choice([0, 1])]}, 'args': [tree]}
+                    if smooth(tree, keys)[0]:
+                        cases.append(mk_case(tree, keys, kind='mixcls:stack'))
+                        break
+        for t in ('V3', 'V2'):
+            for _try in range(30):
+                keys = rng.choice([{'t': []}, {'p': [2]}])
+                g = Gen(rng, keys, 0.8, reuse=0, pcls=0.0)
+                shape = rng.choice([(), (2,)])
+                kids = [g.fresh_leaf(t, shape) for _ in range(2)]
+                alts = O.ALTCLS[t]
+                kids[0]['cls'], kids[0]['dcls'] = alts[rep % 2], rng.choice(alts)
+                kids[1]['cls'], kids[1]['dcls'] = alts[1 - rep % 2], rng.choice(alts)
+                tree = {'op': 'stack', 't': t, 'p': {}, 'args': kids}
+                if smooth(tree, keys)[0]:
+                    cases.append(mk_case(tree, keys, kind='mixcls:stack'))
+                    break
     # 2d. structured edge-valued operands (exactly unit vectors, axis-aligned, equal components, integers, norms
     #     1/2/0.5, identity/permutation matrices, angles at multiples of pi/2) with GENERIC derivatives, for every
     #     operation that has a non-scalar argument or result
@@ -854,6 +961,20 @@ def fd_check(tree, keys):
     return None
 
 
+def known_condition(node, keys):
+    """a tag that makes the signature of a failure specific to a recorded defect's trigger condition"""
+    try:
+        if node['op'] in ('from_parts', 'from_rotation', 'twovec'):
+            for a in node['args']:
+                q = O.ev(a, keys, 'full')
+                if (isinstance(q, O.Vector) and not isinstance(q, O.Vector3) and q._numer_ == (3,) and q._drank_ > 0
+                        and q._derivs_):
+                    return 'asvector3den'      # KF-C06-1: Vector3.as_vector3 of a base-class Vector with a denominator
+    except Exception:
+        pass
+    return None
+
+
 def oracle(case):
     with warnings.catch_warnings():
         warnings.simplefilter('ignore')
@@ -876,7 +997,7 @@ def oracle(case):
         if res is None:
             return None
         # locate the smallest failing subtree: its root operation names the culprit
-        culprit, what = tree['op'], res
+        culprit, what, cnode = tree['op'], res, tree
         for st in subtrees(tree):
             if st['op'] == 'leaf' or st is tree:
                 continue
@@ -885,9 +1006,13 @@ def oracle(case):
             except Exception as e:
                 r2 = ('exception:' + type(e).__name__, 'evaluation raised %r' % (e,))
             if r2 is not None:
-                culprit, what = st['op'], r2
+                culprit, what, cnode = st['op'], r2, st
                 break
-        return ('deriv:%s:%s' % (culprit, what[0]), 'operation %s: %s' % (culprit, what[1]))
+        sig = 'deriv:%s:%s' % (culprit, what[0])
+        tag = known_condition(cnode, keys)
+        if tag:
+            sig += ':' + tag
+        return (sig, 'operation %s: %s' % (culprit, what[1]))
 
 
 def neighbours(case):
